@@ -34,12 +34,12 @@ RandInc(z) == [nil |-> FALSE, t |-> [id \in AllIds |-> [cl \in Classes |-> R(BOO
 ValueInc(z) == LET row == [cl \in Classes |-> R(BOOLEAN)] IN [nil |-> FALSE, t |-> [id \in AllIds |-> row]]
 
 Opts(z, store) ==
-  [M |-> R(WMasks), R |-> R(RMasks),
+  [M |-> R(WMasks), R |-> R(RMasks), mm |-> R({NilMask, NilMask, Mask(<<<<"s">>>>), Mask(<<<<"f","d">>, <<"i">>>>)}),
    ev |-> IF Flip(z, 25) THEN Some(IF Flip(z, 50) /\ store # <<>> THEN R({store[k].body : k \in 1..Len(store)}) ELSE Body(z)) ELSE NoMsg,
    chk |-> R({0, 0, 0, 1}), xa |-> Flip(z, 15), cia |-> Flip(z, 50), am |-> Flip(z, 40),
    gen |-> Flip(z, 60), first |-> R({"g", "g", "a", "b", "A"}),
    ib |-> R({0, 0, 1}), ia |-> R({0, 0, 1}), wt |-> R({-1, -1, 7, 9})]
-PlainOpts == [M |-> NilMask, R |-> NilMask, ev |-> NoMsg, chk |-> 0, xa |-> FALSE, cia |-> FALSE, am |-> FALSE,
+PlainOpts == [M |-> NilMask, R |-> NilMask, mm |-> NilMask, ev |-> NoMsg, chk |-> 0, xa |-> FALSE, cia |-> FALSE, am |-> FALSE,
               gen |-> FALSE, first |-> "g", ib |-> 0, ia |-> 0, wt |-> -1]
 
 RawIds(icpt) == {"A", "a", "b", "g", "g2"}
